@@ -46,7 +46,7 @@ def configs(tier):
     return [(r, t) for r in (1, 2, 3, 4, 5, 6) for t in (0.5, 2, 6)]
 
 
-def make_run(retries, timeout, setup=0):
+def make_run(retries, timeout, setup=0, ipv6=False):
     """setup: (virtual) seconds every create_datagram_endpoint() takes - time
     that passes outside the per-attempt wait"""
     from puresnmp.transport import Endpoint, send_udp
@@ -146,7 +146,7 @@ def make_run(retries, timeout, setup=0):
         done_at = None
         stalled = False
         with loop.running():
-            task = loop.create_task(send_udp(Endpoint(ip_address("192.0.2.1"), 161), REQUEST, timeout=timeout, retries=retries))
+            task = loop.create_task(send_udp(Endpoint(ip_address("2001:db8::1" if ipv6 else "192.0.2.1"), 161), REQUEST, timeout=timeout, retries=retries))
 
             def mark(_):
                 nonlocal done_at
@@ -351,7 +351,7 @@ def run_client_family(acc):
                 t0 = CLOCK.mono
                 result = exc = None
                 with loop.running():
-                    client = Client("192.0.2.1", V2C("public"))
+                    client = Client("2001:db8::1" if how == "default" and answered == 1 else "192.0.2.1", V2C("public"))
                     cm = None
                     if how == "configure":
                         client.configure(retries=retries, timeout=timeout)
@@ -437,6 +437,9 @@ def shards(tier):
     for r, t, su in ((2, 0.5, 0.25), (3, 2, 3)) if tier == "quick" else ((2, 0.5, 0.25), (3, 2, 3), (4, 0.5, 1), (5, 2, 0.5)):
         for first in range(len(OUTCOMES)):
             out.append({"retries": r, "timeout": t, "first": first, "tier": tier, "setup": su})
+    # an IPv6 agent (the OS reports its address as a 4-tuple)
+    for first in range(len(OUTCOMES)):
+        out.append({"retries": 2, "timeout": 0.5, "first": first, "tier": tier, "ipv6": True})
     return out
 
 
@@ -467,7 +470,7 @@ def run_shard(params, acc):
     if params.get("client_family"):
         run_client_family(acc)
         return
-    run = make_run(params["retries"], params["timeout"], params.get("setup", 0))
+    run = make_run(params["retries"], params["timeout"], params.get("setup", 0), params.get("ipv6", False))
 
     def on_exec(ctx, obs, violations):
         acc.count(evaluations=1, nontrivial=1 if any(ctx.choices) else 0, traces=1)
@@ -497,7 +500,7 @@ def run_shard(params, acc):
         if seen[k] > 1:
             continue
         v = dict(v)
-        v["case"] = {"retries": params["retries"], "timeout": params["timeout"], "choices": list(choices), "setup": params.get("setup", 0)}
+        v["case"] = {"retries": params["retries"], "timeout": params["timeout"], "choices": list(choices), "setup": params.get("setup", 0), "ipv6": params.get("ipv6", False)}
         acc.violation(v)
 
 
@@ -513,7 +516,7 @@ def replay(case):
         a = A()
         run_client_family(a)
         return a.v
-    run = make_run(case["retries"], case["timeout"], case.get("setup", 0))
+    run = make_run(case["retries"], case["timeout"], case.get("setup", 0), case.get("ipv6", False))
     _, obs, violations = explore.run_once(run, case["choices"])
     return violations
 
